@@ -8,6 +8,12 @@
 //! of group k is recorded as `(diverge)` for that group and the remaining groups are run in a fresh child.
 //! Panics are caught per call inside the worker and reported as `(panic <class>)`.
 //!
+//! Case (big KIND N STACK_KIB): a document the worker BUILDS -- catalog 1, outline root 2, N small filler objects, and items
+//! whose `First` links form a 2-cycle (KIND first-cycle) or a chain of N items (KIND first-chain) -- so that the reference
+//! budget `objects.len()` is far above what the stack holds: nesting must be cut by the depth limits.  The groups that are
+//! not per-object (cat hint pages outlines toc text) run on a thread with a stack of STACK_KIB KiB, the others print
+//! `(skipped)`; there is no model answer for this case (the runner prints `model-skipped`), the verdict decides alone.
+//!
 //! Result: (res (obj ...) (cat ..) (did ...) (hint ..) (pages ..) (contents ...) (content ...) (resources ...)
 //!              (fonts ...) (annots ...) (images ...) (nd ...) (outlines ..) (toc ..) (enc ...))
 //! Verdict: ok iff no call panicked, hung or aborted (the property itself).
@@ -267,6 +273,47 @@ fn run_group(doc: &Document, g: usize) -> Sx {
     Sx::tagged(GROUPS[g], vec![body])
 }
 
+const BIG_GROUPS: [&str; 6] = ["cat", "hint", "pages", "outlines", "toc", "text"];
+
+/// (big KIND N STACK_KIB): the document and the stack size in bytes
+fn big_doc(x: &Sx) -> Option<(Document, usize)> {
+    let a = x.args();
+    let kind = std::str::from_utf8(a.first()?.as_atom()?).ok()?.to_string();
+    let n = a.get(1)?.as_u64()? as u32;
+    let kib = a.get(2)?.as_u64()? as usize;
+    if !(1..=2_000_000).contains(&n) || !(64..=1 << 20).contains(&kib) {
+        return None;
+    }
+    let mut doc = Document::with_version("1.5");
+    let dict = |es: Vec<(&str, Object)>| Object::Dictionary(es.into_iter().collect::<Dictionary>());
+    let r = |i: u32| Object::Reference((i, 0));
+    let dest = || Object::Array(vec![r(1), Object::Name(b"Fit".to_vec())]);
+    doc.objects.insert((1, 0), dict(vec![("Type", Object::Name(b"Catalog".to_vec())), ("Outlines", r(2))]));
+    doc.objects.insert((2, 0), dict(vec![("Type", Object::Name(b"Outlines".to_vec())), ("First", r(3))]));
+    match kind.as_str() {
+        "first-cycle" => {
+            doc.objects.insert((3, 0), dict(vec![("Title", Object::string_literal("a")), ("Dest", dest()), ("First", r(4))]));
+            doc.objects.insert((4, 0), dict(vec![("Title", Object::string_literal("b")), ("Dest", dest()), ("First", r(3))]));
+            for i in 0..n {
+                doc.objects.insert((5 + i, 0), if i % 2 == 0 { Object::Null } else { Object::Integer(i as i64) });
+            }
+        }
+        "first-chain" => {
+            for i in 0..n {
+                let mut es = vec![("Title", Object::string_literal("t")), ("Dest", dest())];
+                if i + 1 < n {
+                    es.push(("First", r(4 + i)));
+                }
+                doc.objects.insert((3 + i, 0), dict(es));
+            }
+        }
+        _ => return None,
+    }
+    doc.max_id = doc.objects.keys().next_back().map(|k| k.0).unwrap_or(0);
+    doc.trailer.set("Root", r(1));
+    Some((doc, kib * 1024))
+}
+
 fn worker(from: usize) {
     std::panic::set_hook(Box::new(|_| {}));
     let mut line = String::new();
@@ -275,6 +322,31 @@ fn worker(from: usize) {
         Some(x) => x,
         None => return,
     };
+    if x.tag() == Some("big") {
+        let (doc, stack) = match big_doc(&x) {
+            Some(d) => d,
+            None => {
+                println!("badcase");
+                return;
+            }
+        };
+        // a stack overflow on this thread takes the whole process down (SIGABRT), as on the main thread
+        let h = std::thread::Builder::new().stack_size(stack).spawn(move || {
+            let out = std::io::stdout();
+            for g in from..GROUPS.len() {
+                let s = if BIG_GROUPS.contains(&GROUPS[g]) {
+                    run_group(&doc, g)
+                } else {
+                    Sx::tagged(GROUPS[g], vec![Sx::tagged("skipped", vec![])])
+                };
+                let mut o = out.lock();
+                writeln!(o, "{} {}", g, s.print()).unwrap();
+                o.flush().unwrap();
+            }
+        });
+        let _ = h.expect("spawn").join();
+        return;
+    }
     let doc = match x.args().first().and_then(doc_of_sx) {
         Some(d) => d,
         None => {
